@@ -27,6 +27,7 @@ type c11Case struct {
 	Order  []int  `json:"order"`
 	DupAt  int    `json:"dup_at"` // re-deliver the message delivered at this step (-1: never)
 	Late   bool   `json:"late"`   // the duplicate arrives after the receiver's suppression window has elapsed (vertex items only)
+	Flood  int    `json:"flood"`  // this many OTHER items pass through the receiver between the original and its duplicate
 	Evil   int    `json:"evil"`   // C12: index of the adversarial relay (-1: none)
 	Forge  []int  `json:"forge"`  // C12: the adversary's drawn choices
 }
@@ -224,6 +225,9 @@ func (n *vnet) runGossip(c c11Case, choose func(step, avail int) int, forge func
 						return "", "", taken, avail, "network did not settle"
 					}
 					n.nodes[m.To].flash.forget.Store(true)
+				}
+				if c.Flood > 0 && !late {
+					n.flood(m.To, c.Flood)
 				}
 				n.deliver(m) // a duplicated message
 				if late {
@@ -463,7 +467,11 @@ func (n *vnet) adversary(c c11Case, m *vmsg, forge func(string, int) int, hv *ha
 			victim := n.nodes[y].key.Addr
 			nEntries := 1 + forge("entries", 4)
 			for e := 0; e < nEntries; e++ {
-				switch forge("entryKind", 9) {
+				switch forge("entryKind", 10) {
+				case 9: // the adversary's own valid entry, followed by a copy of it (same digest, same signature) under the victim's address
+					d, s := evilKey.Sign(append([]byte(evilKey.Addr), item[:]...))
+					list = append(list, &protobufcompiled.Gossiper{Address: evilKey.Addr, Digest: d[:], Signature: s},
+						&protobufcompiled.Gossiper{Address: victim, Digest: append([]byte(nil), d[:]...), Signature: append([]byte(nil), s...)})
 				case 6: // malformed: the victim's address with a digest of the wrong length (a node that filters such entries must not let the filtering shift anything)
 					list = append(list, &protobufcompiled.Gossiper{Address: victim, Digest: fill([]int{0, 1, 31, 33}[forge("badDigestLen", 4)], "rand", byte(e)), Signature: fill(64, "rand", byte(e+3))})
 				case 7: // malformed: an entry without address, or no entry at all
@@ -526,6 +534,24 @@ func (n *vnet) adversary(c c11Case, m *vmsg, forge func(string, int) int, hv *ha
 	}
 }
 
+// flood pushes k fresh awaiting transactions through node d's handler, each carrying valid entries of EVERY node for that
+// transaction (so d remembers the hash but neither stores nor forwards anything): other traffic a busy node sees between
+// two copies of the item under test. All of it happens well inside the suppression window.
+func (n *vnet) flood(d, k int) {
+	for i := 0; i < k; i++ {
+		n.trxCtr++
+		issuer, receiver := ref.NewKey("c11-flood-issuer", []byte(fmt.Sprint(n.trxCtr))), ref.NewKey("c11-flood-receiver", []byte(fmt.Sprint(n.trxCtr)))
+		tx := ref.MakeTx("flood", spice.Melange{}, sim.DataBytes(9, int64(n.trxCtr)), receiver.Addr, issuer, n.w.Epoch.Add(time.Duration(n.trxCtr)*time.Second))
+		var list []*protobufcompiled.Gossiper
+		for _, vn := range n.nodes {
+			dg, sg := vn.key.Sign(append([]byte(vn.key.Addr), tx.Hash[:]...))
+			list = append(list, &protobufcompiled.Gossiper{Address: vn.key.Addr, Digest: dg[:], Signature: sg})
+		}
+		msg := &protobufcompiled.TrxMsgGossip{Trx: protoTx(&tx), Gossipers: list}
+		sim.GuardT(sim.CallTimeout, func() error { n.nodes[d].g.Server().GossipTrx(bg, msg); return nil })
+	}
+}
+
 func sortStrings(s []string) {
 	for i := 1; i < len(s); i++ {
 		for j := i; j > 0 && s[j] < s[j-1]; j-- {
@@ -537,7 +563,7 @@ func sortStrings(s []string) {
 // ---------- C11 ----------
 
 func TestC11(t *testing.T) {
-	st := newStats(t, "C11", "cases = (connected topology, origin, item kind in {vertex created at the origin, awaiting transaction, vertex / transaction with a broken signature}, delivery order of the in-flight messages, optional duplicated delivery - for vertices also a duplicate arriving after the receiver's suppression window has elapsed (switchable wrapper around the real recent-hash memory)) on a virtual network of real gossip nodes over real ledgers and caches; every connected labelled graph on 2-4 nodes x every origin with depth-first enumeration of delivery orders (complete unless the per-(graph,origin) cap is hit), rapid-drawn graphs on 5-6 nodes and orders; oracle from the harness's own log of stub sends and handler calls: every node admits exactly once, at most one forward per peer, never to a verified gossiper of that message (verified by the harness), forward only after own acceptance, messages <= sum of degrees, in-flight set drains; non-trivial = >=3 nodes and the graph has a cycle or a path of >=2 hops; enumerated schedules distinct by construction, random by fingerprint")
+	st := newStats(t, "C11", "cases = (connected topology, origin, item kind in {vertex created at the origin, awaiting transaction, vertex / transaction with a broken signature}, delivery order of the in-flight messages, optional duplicated delivery - for vertices also a duplicate arriving after the receiver's suppression window has elapsed (switchable wrapper around the real recent-hash memory), or a duplicate separated from the original by up to 1100 other items passing through the receiver) on a virtual network of real gossip nodes over real ledgers and caches; every connected labelled graph on 2-4 nodes x every origin with depth-first enumeration of delivery orders (complete unless the per-(graph,origin) cap is hit), rapid-drawn graphs on 5-6 nodes and orders; oracle from the harness's own log of stub sends and handler calls: every node admits exactly once, at most one forward per peer, never to a verified gossiper of that message (verified by the harness), forward only after own acceptance, messages <= sum of degrees, in-flight set drains; non-trivial = >=3 nodes and the graph has a cycle or a path of >=2 hops; enumerated schedules distinct by construction, random by fingerprint")
 	sim.Chdir(workDir(t))
 	sh, nsh := shard(), nshards()
 	hv := &harvest{byAddr: map[string][]*protobufcompiled.Gossiper{}}
@@ -571,6 +597,12 @@ func TestC11(t *testing.T) {
 			}
 		}
 		st.label("kind:" + c.Kind)
+		if c.Flood > 0 {
+			st.label(fmt.Sprintf("duplicate-after-%d-other-items", c.Flood))
+		}
+		if c.Late {
+			st.label("duplicate-after-the-suppression-window")
+		}
 		if sig != "" {
 			c.Order = taken
 			bad := false
@@ -617,6 +649,9 @@ func TestC11(t *testing.T) {
 							if orders%5 == 4 {
 								c.DupAt = orders % 3
 								c.Late = kind == "vrx" && (orders/3)%2 == 1
+								if orders%35 == 34 {
+									c.Flood = 1100 // more than any power-of-two housekeeping step below 2^11 of the recent-hash memory
+								}
 							}
 							sig, msg, taken, avail, inc := n.runGossip(c, func(step, av int) int {
 								if step < len(prefix) && prefix[step] < av {
@@ -702,6 +737,9 @@ func TestC11(t *testing.T) {
 			c := c11Case{N: k, Graph: graphString(adj), Origin: rapid.IntRange(0, k-1).Draw(rt, "origin"),
 				Kind: rapid.SampledFrom([]string{"vrx", "vrx", "trx", "confirm", "confirm", "chain2", "chain2", "badvrx", "badtrx"}).Draw(rt, "kind"), DupAt: rapid.IntRange(-1, 6).Draw(rt, "dupAt"), Evil: -1}
 			c.Late = c.Kind == "vrx" && c.DupAt >= 0 && rapid.Bool().Draw(rt, "late")
+			if c.DupAt >= 0 && !c.Late && rapid.IntRange(0, 5).Draw(rt, "floodOn") == 0 {
+				c.Flood = rapid.SampledFrom([]int{3, 40, 1100}).Draw(rt, "flood")
+			}
 			n := getNet(k)
 			if n == nil {
 				rt.Skip("no network")
@@ -726,7 +764,7 @@ func TestC11(t *testing.T) {
 // ---------- C12 ----------
 
 func TestC12(t *testing.T) {
-	st := newStats(t, "C12", "cases = C11's virtual network with ONE node replaced by an adversarial relay the harness plays: on receipt it forwards the intact item 0-2 times to each neighbour with a gossiper list assembled from garbage of correct lengths, malformed entries (wrong digest length, no address, nil) placed before valid ones, honest nodes' genuine entries harvested from OTHER items, the victim's or its peers' addresses signed by the adversary or unsigned, valid sybil entries, and the genuine entries of this item; every connected graph on 3-4 nodes x relay position x origin with drawn orders and forgeries, sampled graphs on 5 nodes; oracle = every honest node with an honest path to the origin (or that received any copy) admits exactly once, and an honest node skips a peer only if the message it processed carries that peer's valid entry for this item (verified by the harness); non-trivial = the adversary lies on a path from the origin and forged >= 1 entry; distinct by (graph, relay, origin, order, forgery choices) fingerprint")
+	st := newStats(t, "C12", "cases = C11's virtual network with ONE node replaced by an adversarial relay the harness plays: on receipt it forwards the intact item 0-2 times to each neighbour with a gossiper list assembled from garbage of correct lengths, malformed entries (wrong digest length, no address, nil) placed before valid ones, the adversary's own valid entry repeated under the victim's address, honest nodes' genuine entries harvested from OTHER items, the victim's or its peers' addresses signed by the adversary or unsigned, valid sybil entries, and the genuine entries of this item; every connected graph on 3-4 nodes x relay position x origin with drawn orders and forgeries, sampled graphs on 5 nodes; oracle = every honest node with an honest path to the origin (or that received any copy) admits exactly once, and an honest node skips a peer only if the message it processed carries that peer's valid entry for this item (verified by the harness); non-trivial = the adversary lies on a path from the origin and forged >= 1 entry; distinct by (graph, relay, origin, order, forgery choices) fingerprint")
 	sim.Chdir(workDir(t))
 	hv := &harvest{byAddr: map[string][]*protobufcompiled.Gossiper{}}
 	nets := map[int]*vnet{}
